@@ -135,7 +135,13 @@ def runHRib (v : Variant) (ops input : String) : Option String := do
 def showGroupsAll (g : List (List Out)) : String :=
   if g.isEmpty then "-" else " / ".intercalate (g.map fun v => "os[" ++ " ".intercalate (v.map showOsm) ++ "]")
 
-def runS (v : Variant) (unit ops msgs : String) : Option String := do
+/-- `msg_stream_bgp=per-session` / `msg_stream_bmp=per-session` select the hoisted stream per site -/
+structure SiteFlags where
+  bgpShared : Bool
+  bmpShared : Bool
+
+def runS (fl : SiteFlags) (v : Variant) (unit ops msgs : String) : Option String := do
+  let v := { v with perMsg := !(if unit == "bgp" then fl.bgpShared else fl.bmpShared) }
   match ops.splitOn ";" with
   | [a, b] =>
     let a ← parseOps a
@@ -145,22 +151,23 @@ def runS (v : Variant) (unit ops msgs : String) : Option String := do
     some (showGroupsAll (runSession v 64999 a b ms))
   | _ => none
 
-def runCase (v : Variant) (line : String) : String :=
+def runCase (fl : SiteFlags) (v : Variant) (line : String) : String :=
   let r := match line.splitOn "|" with
     | ["T", "registry"] => some (" ".intercalate registry)
     | ["M", unit, input] => runM unit input
     | ["L", unit, ops, input] => runL v unit ops input
     | ["H", "bmp", ops, input] => runHBmp v ops input
     | ["H", "rib", ops, input] => runHRib v ops input
-    | ["S", unit, ops, msgs] => runS v unit ops msgs
+    | ["S", unit, ops, msgs] => runS fl v unit ops msgs
     | _ => none
   r.getD "bad-case"
 
-partial def loop (v : Variant) (h : IO.FS.Stream) (out : IO.FS.Stream) : IO Unit := do
+partial def loop (fl : SiteFlags) (v : Variant) (h : IO.FS.Stream) (out : IO.FS.Stream) : IO Unit := do
   let line ← h.getLine
   if line.isEmpty then return ()
-  out.putStrLn (runCase v (line.trimAscii.toString))
-  loop v h out
+  out.putStrLn (runCase fl v (line.trimAscii.toString))
+  loop fl v h out
 
 def main (args : List String) : IO Unit := do
-  loop ⟨args.contains "take_entry=repaired", args.contains "rib_stream=per-route", !args.contains "msg_stream=per-session"⟩ (← IO.getStdin) (← IO.getStdout)
+  loop ⟨args.contains "msg_stream_bgp=per-session", args.contains "msg_stream_bmp=per-session"⟩
+    ⟨args.contains "take_entry=repaired", args.contains "rib_stream=per-route", true⟩ (← IO.getStdin) (← IO.getStdout)
